@@ -39,3 +39,13 @@ CLAIMED['C03'] = (
  'From an arbitrary parent (every secret in [1,n-1], every chain code, depth), for every index 0..2^32+1 and hardened flag z3 shows: the HMAC key and data bytes are exactly those of BIP32, the child scalar/point is (I_L + k) mod n, invalid I_L is refused, depth/child number/parent fingerprint/chain code are as specified, private and public derivation commute, an index >= 2^31 or a hardened marker is always refused below a public key, and subkey_for_path equals the iterated CKD for every marker spelling.',
  'Trusted: z3, proxy/shim layer, the group model (sound for statements that hold in every cyclic group of order n), uninterpreted HMAC/hash160. Outside: that fastecdsa computes the real curve/HMAC, depth > 2. Listed findings: point at infinity not refused in child_public (model only), seeds made of ASCII hex digits are hex-decoded.',
  'DESIGN.md C03')
+CLAIMED['C09'] = (
+ 'CrossHair symbolic execution (z3) of the real keys.path_expand, main.get_key_structure_data, wallets.normalize_path, Wallet.path_expand / keys_for_path (up to the path request) against BIP44/49/84/45/48 oracles with SLIP-44 coin types; one confirmed condition per configuration',
+ 'For every network x witness type x single/multisig and every request form (empty, [change,index], [index], named levels, full string/list, level offsets, marker spellings, purpose override, wallet-side composition, mixed witness types) CrossHair confirms over all paths, for all account/address_index in [0,2^31), change in {0,1}, cosigner in [0,15], that the produced path is the BIP path with the documented purpose, coin type and hardened markers; over-long paths and wrong level names are refused.',
+ 'Trusted: CrossHair/z3, the oracle harness/ch/c09_oracle.py. Outside: index issuance, address uniqueness, restore equivalence (SQLAlchemy queries, not encoded); key material along the path is C03. Listed finding: mixed witness types in multisig wallets give hybrid paths.',
+ 'DESIGN.md C09')
+CLAIMED['C20'] = (
+ 'CrossHair symbolic execution (z3) of the real Service._provider_execute and the public wrappers on a Service.__new__ object with fake provider classes and a fake cache; scalar solver-chosen outcomes, priorities, limits and cache states; one confirmed condition per scenario family',
+ 'For 3 (thorough 4) providers with every outcome assignment from {answer, exception, False/empty, AttributeError, missing method}, every strict priority order, max_errors 1..4, max_providers 1..3 CrossHair confirms over all paths: a returned value is the answer of the highest-priority answering provider, the call succeeds when fewer than max_errors failures precede it and fails otherwise; each wrapper (getbalance, getutxos, gettransaction(s), getrawtransaction, sendrawtransaction, blockcount, estimatefee, mempool, isspent) returns exactly the provider answer or the cached copy and passes failure on.',
+ 'Trusted: CrossHair/z3, the fakes and the fail-over specification in harness/ch/c20_common.py. Outside: the real SQL Cache class, real provider clients/HTTP, flaky providers, equal priorities. Listed findings: estimatefee falls back to the network default, isspent reports failure as unspent.',
+ 'DESIGN.md C20')
